@@ -217,3 +217,35 @@ func vpH_c10_collisions() {
 	})
 	vpAssert(i == len(wantK) && p.Env.Len() == len(wantK), "colliding names: no entry is duplicated or lost beyond the dropped collisions")
 }
+
+// Names and values of the env block are expanded like every other string: the
+// escapes `$$` and `\$` come out as a literal `$` wherever they stand (also as
+// the last bytes), a lone trailing `$` stays, and what later entries, the steps
+// and the caller see is the expanded text.
+func vpH_c10_escapes() {
+	shapes := []string{"$$A", "a$$", "a\\$", "\\$", "$", "a$", "\\$A", "$$", "x\\$y", "\\\\$A"}
+	v := shapes[vpInt(0, len(shapes)-1)]
+	k := "K"
+	if vpBool() {
+		k = "K" + shapes[vpInt(0, len(shapes)-1)] // names built by expansion too
+	}
+	caller := env.New(env.FromMap(map[string]string{"A": "va"}))
+	model := vpMapEnv{"A": "va"}
+	wantK, e1 := interpolate.Interpolate(model, k)
+	wantV, e2 := interpolate.Interpolate(model, v)
+	vpAssume(e1 == nil && e2 == nil)
+	p := &Pipeline{Env: ordered.NewMap[string, string](1), Steps: Steps{&CommandStep{Command: "c ${" + "K" + "}"}}}
+	p.Env.Set(k, v)
+	p.Env.Set("LATER", "l $K")
+	err := p.Interpolate(caller, false)
+	vpAssert(err == nil, "an env block with escapes interpolates")
+	got, has := p.Env.Get(wantK)
+	vpAssert(has && got == wantV, "the entry is recorded under its expanded name with its expanded value (escapes unescaped once)")
+	cv, chas := caller.Get(wantK)
+	vpAssert(chas && cv == wantV, "the expanded value is what the caller's environment receives")
+	if wantK == "K" {
+		later, _ := p.Env.Get("LATER")
+		vpAssert(later == "l "+wantV, "later entries see the expanded value")
+		vpAssert(p.Steps[0].(*CommandStep).Command == "c "+wantV, "steps see the expanded value")
+	}
+}
